@@ -171,7 +171,9 @@ def ref_orbit(orb):
         mu = _mu(body)
         a = BODIES[body][1] / (1 - e)
         nums, rv = fr.orbit_numbers(a, e, i, Om, w, M, mu)
-        forms = [f for f in fr.FORMS if f in nums]
+        # keplerian_mean_circular stores alpha = (w + M) mod 2pi: on a hyperbola M is not an angle, so the form
+        # cannot represent the orbit (not "defined for them" in the property's words) -> excluded like TLE
+        forms = [f for f in fr.FORMS if f in nums and not (e > 1 and f == "keplerian_mean_circular")]
         expected = {f: fr.from_cart(f, rv, mu) for f in forms}
         r = dict(mu=mu, nums=nums, rv=np.asarray(rv, dtype=float), forms=forms, expected=expected, e=e, i=i,
                  rn=float(np.linalg.norm(rv[:3])), vn=float(np.linalg.norm(rv[3:])), cond=1 + 1 / abs(1 - e),
@@ -469,6 +471,7 @@ def check_walks(orb, S, X, t, first=None):
 def _exclusions(orb, t, per):
     if orb[1] > 1:
         t.exclude("hyperbolic orbit x TLE form: n = sqrt(mu/a^3) undefined for a < 0 (property: 'every form that is defined for them')", per)
+        t.exclude("hyperbolic orbit x keplerian_mean_circular form: alpha = (w + M) mod 2pi cannot carry a hyperbolic mean anomaly (form not defined for hyperbolas)", per)
 
 
 def run_unit(p, t):
